@@ -189,3 +189,72 @@ c16_tok!(c16_tokenizer_len3, 3, 5);
 c16_tok!(c16_tokenizer_len4, 4, 6);
 c16_tok!(c16_tokenizer_len5, 5, 7);
 c16_tok!(c16_tokenizer_len6, 6, 8);
+
+/// C13 (tokenizer, non-ASCII): `(L` + 3 symbolic bytes + `V` over {L ) V I ; a and the
+/// two bytes of U+00E9}, valid UTF-8 only: the tokenizer never panics (slicing by
+/// computed byte indices next to multi-byte characters). Default Kani checks are on.
+#[kani::proof]
+#[kani::stub(core::slice::memchr::memchr, memchr_model)]
+#[kani::stub(core::slice::memchr::memrchr, memrchr_model)]
+#[kani::unwind(8)]
+fn c13_tokenizer_utf8() {
+    let mut buf = [b'(', b'L', 0, 0, 0, b'V'];
+    let mut i = 2;
+    while i < 5 {
+        let c: u8 = kani::any();
+        kani::assume(matches!(c, b'L' | b')' | b'V' | b'I' | b';' | b'a' | 0xC3 | 0xA9));
+        buf[i] = c;
+        i += 1;
+    }
+    kani::assume(crate::verif_support::stubs::utf8_valid(&buf));
+    let text = unsafe { core::str::from_utf8_unchecked(&buf) };
+    let got = parse_obfuscated_bytecode_signature(text);
+    kani::cover!(buf[2] == 0xC3 && buf[4] == b')' && got.is_none(), "unterminated object type ending in a 2-byte character");
+    if let Some((types, _)) = got {
+        core::mem::forget(types);
+    }
+}
+
+/// C16 (tokenizer, non-ASCII class names): `(L` + 2 bytes + `;` + 1 byte + `)V` over
+/// {a I L ; and the two bytes of U+00E9}, valid UTF-8 only, against the same
+/// reference classification (count of parameter types, return slice): a class name
+/// with multi-byte characters must not swallow the parameters that follow it.
+#[kani::proof]
+#[kani::stub(core::slice::memchr::memchr, memchr_model)]
+#[kani::stub(core::slice::memchr::memrchr, memrchr_model)]
+#[kani::unwind(10)]
+fn c16_tokenizer_utf8_names() {
+    let mut buf = [b'(', b'L', 0, 0, b';', 0, b')', b'V'];
+    let idx = [2usize, 3, 5];
+    let mut i = 0;
+    while i < 3 {
+        let c: u8 = kani::any();
+        kani::assume(matches!(c, b'a' | b'I' | b'L' | b';' | 0xC3 | 0xA9));
+        buf[idx[i]] = c;
+        i += 1;
+    }
+    kani::assume(crate::verif_support::stubs::utf8_valid(&buf));
+    let s = &buf[..];
+    let text = unsafe { core::str::from_utf8_unchecked(s) };
+    let mut ret = 0usize;
+    let want = ref_classify(s, &mut ret);
+    let got = parse_obfuscated_bytecode_signature(text);
+    let (is_some, n_types, r_off, r_len) = match got {
+        Some((types, r)) => {
+            let n = types.len();
+            core::mem::forget(types);
+            (true, n, off_in(s, r), r.len())
+        }
+        None => (false, 0, 0, 0),
+    };
+    match want {
+        Ok(None) => assert!(!is_some, "C16: invalid descriptor accepted"),
+        Ok(Some(n)) => {
+            assert!(is_some, "C16: valid descriptor rejected");
+            assert!(n_types == n, "C16: wrong number of parameter types");
+            assert!(r_off == ret && r_len == 8 - ret, "C16: wrong return type");
+            kani::cover!(n == 2 && buf[2] == 0xC3, "2-byte class name followed by a primitive parameter");
+        }
+        Err(()) => {}
+    }
+}
